@@ -43,7 +43,7 @@ from email.mime.multipart import MIMEMultipart
 from email.mime.application import MIMEApplication
 from email.encoders import encode_7or8bit
 
-from spyne import ValidationError
+from spyne import ValidationError, Fault
 from spyne.util import six
 from spyne.model.binary import ByteArray, File
 from spyne.const.xml import NS_XOP
@@ -57,7 +57,8 @@ else:
 XPATH_NSDICT = dict(xop=NS_XOP)
 
 
-def _join_attachment(ns_soap_env, href_id, envelope, payload, prefix=True):
+def _join_attachment(ns_soap_env, href_id, envelope, payload, prefix=True,
+                                                                   parser=None):
     """Places the data from an attachment back into a SOAP message, replacing
     its xop:Include element or href.
 
@@ -71,8 +72,13 @@ def _join_attachment(ns_soap_env, href_id, envelope, payload, prefix=True):
     :param  payload:  attachment data
     """
 
-    # grab the XML element of the message in the SOAP body
-    soaptree = etree.fromstring(envelope)
+    # grab the XML element of the message in the SOAP body. use the parser of
+    # the protocol: the library default resolves entities.
+    try:
+        soaptree = etree.fromstring(envelope, parser)
+    except etree.XMLSyntaxError as e:
+        raise Fault('Client.XMLSyntaxError', str(e))
+
     soapbody = soaptree.find("{%s}Body" % ns_soap_env)
 
     if soapbody is None:
@@ -101,7 +107,7 @@ def _join_attachment(ns_soap_env, href_id, envelope, payload, prefix=True):
     return etree.tostring(soaptree), num
 
 
-def collapse_swa(ctx, content_type, ns_soap_env):
+def collapse_swa(ctx, content_type, ns_soap_env, parser=None):
     """
     Translates an SwA multipart/related message into an application/soap+xml
     message.
@@ -180,13 +186,13 @@ def collapse_swa(ctx, content_type, ns_soap_env):
         # Check for Content-ID and make replacement
         if cid:
             soapmsg, numreplaces = _join_attachment(
-                                             ns_soap_env, cid, soapmsg, payload)
+                              ns_soap_env, cid, soapmsg, payload, parser=parser)
 
         # Check for Content-Location and make replacement
         if cloc and not cid and not numreplaces:
             soapmsg, numreplaces = _join_attachment(
                                             ns_soap_env, cloc, soapmsg, payload,
-                                                                          False)
+                                                           False, parser=parser)
 
     if soapmsg is None:
         raise ValidationError(None, "Invalid MtoM request")
